@@ -185,6 +185,11 @@ class TunnelExitSocket(RoutingObject, TaskManager):
                                          ignore=(OSError, ValueError)).add_done_callback(on_address)
             return
 
+        if destination == ("0.0.0.0", 0):
+            # The community refuses this destination before it gets here, unless a host name resolved to it.
+            self.logger.warning("Cannot exit data, destination is 0.0.0.0:0")
+            return
+
         transport = self.transport_ipv6 if isinstance(destination, UDPv6Address) else self.transport_ipv4
 
         if not transport:
